@@ -192,6 +192,8 @@ def actualize(cin):
     out["feed"] = dict(cin["feed"], order=[f(s) for s in cin["feed"].get("order") or []])
     if "bind" in cin:
         out["bind"] = [[f(k), v] for k, v in cin["bind"]]
+    if "psymkeys" in cin:
+        out["psymkeys"] = [f(k) for k in cin["psymkeys"]]
     if "cfg" in cin:
         out["cfg"] = dict(cin["cfg"], symorder=[f(s) for s in cin["cfg"].get("symorder") or []])
     return out, inv
@@ -703,7 +705,7 @@ def user_param_symbols(cin):
     ps = cin["cfg"].get("psym", "none")
     if ps == "none":
         return None
-    keys = sorted(k for k, v in cin["bind"])
+    keys = sorted(cin.get("psymkeys") or [k for k, v in cin["bind"]])
     if ps == "rev":
         keys = keys[::-1]
     return OrderedDict((k, sympy.Symbol("u_" + k)) for k in keys)
@@ -954,7 +956,7 @@ def gen_build_config(rng, n, substs=(), feed=False):
 def default_pk_fields():
     return {"gsub": "none", "fsub": "none", "consts": [], "symorder": [],
             "gval": [1, 1], "gsubval": [1, 1], "gconst": [1, 1], "fsubval": [1, 1], "fconst": [1, 1],
-            "qval": [1, 1], "psym": "none", "symodict": False, "rebuild": False, "implicit": False}
+            "qval": [1, 1], "pfull": False, "psym": "none", "symodict": False, "rebuild": False, "implicit": False}
 
 
 # ----------------------------------------------------------------------------- repository suite (code -> spec)
